@@ -77,3 +77,53 @@ def factor_to_named(phi):
         key = frozenset((v, names[i][j]) for i, (v, j) in enumerate(zip(vars_, idxs)))
         out[key] = float(vals[idxs]) if vars_ else float(vals)
     return out
+
+
+def build_factor(spec, f):
+    from pgmpy.factors.discrete import DiscreteFactor
+
+    idx = spec_index(spec)
+    return DiscreteFactor(
+        list(f["vars"]),
+        [spec["card"][idx[v]] for v in f["vars"]],
+        list(f["values"]),
+        state_names={v: list(spec["states"][idx[v]]) for v in f["vars"]},
+    )
+
+
+def build_mn(spec):
+    from pgmpy.models import MarkovNetwork
+
+    mn = MarkovNetwork()
+    mn.add_nodes_from(spec["nodes"])
+    for u, v in spec["edges"]:
+        mn.add_edge(u, v)
+    mn.add_factors(*[build_factor(spec, f) for f in spec["factors"]])
+    return mn
+
+
+def build_fg(spec):
+    """Factor graph assembled by hand: factor nodes are the factor objects themselves."""
+    from pgmpy.models import FactorGraph
+
+    fg = FactorGraph()
+    fg.add_nodes_from(spec["nodes"])
+    fs = [build_factor(spec, f) for f in spec["factors"]]
+    for phi in fs:
+        fg.add_node(phi)
+        for v in phi.variables:
+            fg.add_edge(v, phi)
+    fg.add_factors(*fs)
+    return fg
+
+
+def build_jt(spec):
+    from pgmpy.models import JunctionTree
+
+    jt = JunctionTree()
+    for cl in spec["cliques"]:
+        jt.add_node(tuple(cl))
+    for a, b in spec["tree"]:
+        jt.add_edge(tuple(a), tuple(b))
+    jt.add_factors(*[build_factor(spec, f) for f in spec["factors"]])
+    return jt
